@@ -54,7 +54,7 @@ CHECKS['C03'] = dict(level=MC, ref='4 C03',
          'independent subsets of one universe (equal/overlapping/disjoint content), S2 trace over fused legs, S3 incompatibly fused operands (order, partition, mode, hidden constituent signature) '
          'must end in YastnError, S4 fuse to depth<=3 / unfuse roundtrip; hard, meta and mixed; lazy transpositions; S9: contraction over BLOCKED nested hard-fused legs with different sector '
          'content (sum of products of spaces, also fused once more after blocks were removed on one side) as a "route" event - the value must equal the validated sum of the plain tensordots.',
-    note='bounded: ranks 2..4, universes of 2-3 charges, dims 1..2, 1260 (quick) / 12000 (thorough) scenarios; S8: yastn.block - super-tensors of 2-4 operands on a grid along 1-2 blocked legs with common legs, reference TensorOps!Block (labels shifted by the dimensions of the earlier positions), then norm / contraction over the blocked leg / transposition of the result; blocking of FUSED operands and two-step blocking not covered. Added scenarios: S5 sparse operands contracted in place over 2-3 legs (original vs fused, depth 1-2), S6 contractions whose merged operand needs zero padding of exactly the size of the partner-less blocks, S7 n-ary sums with a dimension conflict hidden inside a hard-fused group and invisible from the first operand (TraceTensor!MustRejectHidden: must be rejected in every operand order); all scenarios rotate over the three policies x two default modes',
+    note='bounded: ranks 2..4, universes of 2-3 charges, dims 1..2, 1260 (quick) / 12000 (thorough) scenarios; S8: yastn.block - super-tensors of 2-4 operands on a grid along 1-2 blocked legs with common legs, reference TensorOps!Block (labels shifted by the dimensions of the earlier positions), then norm / contraction over the blocked leg / transposition of the result; blocking of hard-fused operands is covered by S9 (2-6 pairs of rank-4 operands, three legs fused flat / left- / right-nested or two legs fused and the blocked leg fused once more after a contraction removed blocks on one side; the blocked tensors themselves cannot be read through unfuse_legs, so the VALUE of their contraction is compared); two-step blocking not covered. Added scenarios: S5 sparse operands contracted in place over 2-3 legs (original vs fused, depth 1-2), S6 contractions whose merged operand needs zero padding of exactly the size of the partner-less blocks, S7 n-ary sums with a dimension conflict hidden inside a hard-fused group and invisible from the first operand (TraceTensor!MustRejectHidden: must be rejected in every operand order); all scenarios rotate over the three policies x two default modes',
     technique='TLA+ label model of fusion (TensorOps) + TLC trace validation of recorded scenario programs')
 CHECKS['C14'] = dict(level=MC, ref='4 C14',
     text='Hyper-traces: one generated program is executed under 8 configurations (3 tensordot policies x 2 default fusion modes + 2 force_fusion settings) and under 3 placements of '
